@@ -301,6 +301,8 @@ func c19run(t *testing.T, r *kernel.Run) {
 			a = 11
 		} else if a >= 14 {
 			a = 10 // state changes are three times as likely as any other special step
+		} else if a == 7 && last != nil {
+			a = 13 // ... and repeating the previous request twice as likely
 		}
 		switch {
 		case a == 13 && last != nil: // the same request again (a refused request must not leave anything behind that breaks the next one)
